@@ -94,11 +94,17 @@ func c12WritesVia(fi *FuncInfo, obj types.Object) bool {
 	return found
 }
 
-// c12StructLit: the struct literal that expression a (an argument or receiver expression of a call in caller)
-// denotes at the call: the literal itself, or the single initialiser of a local variable that is never
-// reassigned, whose fields are never written, whose address does not escape and on which only methods that do
-// not write their receiver are called.
+// c12StructLit: the struct literal that expression a (an argument or receiver expression of a call in caller, or
+// the base of a field read) denotes there: the literal itself; the single initialiser of a local variable that is
+// never reassigned, whose fields are never written, whose address does not escape and on which only methods that do
+// not write their receiver are called; the initialiser of an unexported package-level struct variable that is used
+// in the same read-only way throughout its package (a table of sequences next to its helper); or a local copy of
+// such a variable (`seqs := fgSequences`, what inlining a helper with a struct parameter leaves behind).
 func (st *c12State) structLit(caller *FuncInfo, a ast.Expr) *ast.CompositeLit {
+	return st.structLitDepth(caller, a, 0)
+}
+
+func (st *c12State) structLitDepth(caller *FuncInfo, a ast.Expr, depth int) *ast.CompositeLit {
 	info := caller.Pkg.TypesInfo
 	a = unparen(a)
 	if u, ok := a.(*ast.UnaryExpr); ok && u.Op == token.AND {
@@ -128,8 +134,11 @@ func (st *c12State) structLit(caller *FuncInfo, a ast.Expr) *ast.CompositeLit {
 		return nil
 	}
 	obj, ok := info.ObjectOf(id).(*types.Var)
-	if !ok || obj.IsField() || obj.Pkg() == nil || obj.Parent() == obj.Pkg().Scope() {
+	if !ok || obj.IsField() || obj.Pkg() == nil {
 		return nil
+	}
+	if obj.Parent() == obj.Pkg().Scope() {
+		return st.pkgStructLit(obj)
 	}
 	init := c12LocalInit(caller, obj)
 	if init == nil {
@@ -137,12 +146,90 @@ func (st *c12State) structLit(caller *FuncInfo, a ast.Expr) *ast.CompositeLit {
 	}
 	cl := isStructLit(init)
 	if cl == nil {
-		return nil
+		// a copy of another read-only struct: seqs := fgSequences
+		if _, isStruct := obj.Type().Underlying().(*types.Struct); !isStruct || depth >= 3 {
+			return nil
+		}
+		src, isId := unparen(init).(*ast.Ident)
+		if !isId {
+			return nil
+		}
+		if cl = st.structLitDepth(caller, src, depth+1); cl == nil {
+			return nil
+		}
 	}
 	// every other use of the variable must leave it unchanged
-	parents := st.c.P.Parents(caller.Pkg)
+	if !st.structUsesReadOnly(caller.Pkg, caller.Decl.Body, obj) {
+		return nil
+	}
+	return cl
+}
+
+// pkgStructLit: the struct literal an unexported package-level variable of struct type is initialised with, provided
+// nothing in its package assigns it, writes one of its fields, takes its address or calls a receiver-writing method
+// on it. Its fields then hold, at every use, what the literal's expressions evaluated to when the package was
+// initialised.
+func (st *c12State) pkgStructLit(v *types.Var) *ast.CompositeLit {
+	if st.pkgLits == nil {
+		st.pkgLits = map[*types.Var]*ast.CompositeLit{}
+	}
+	if cl, done := st.pkgLits[v]; done {
+		return cl
+	}
+	st.pkgLits[v] = nil
+	if v.Exported() {
+		return nil
+	}
+	if _, isStruct := v.Type().Underlying().(*types.Struct); !isStruct {
+		return nil
+	}
+	var pk *packages.Package
+	for _, q := range st.c.P.Pkgs {
+		if q.Types == v.Pkg() {
+			pk = q
+		}
+	}
+	if pk == nil {
+		return nil
+	}
+	var lit *ast.CompositeLit
+	for _, f := range pk.Syntax {
+		for _, d := range f.Decls {
+			gd, ok := d.(*ast.GenDecl)
+			if !ok || gd.Tok != token.VAR {
+				continue
+			}
+			for _, sp := range gd.Specs {
+				vs := sp.(*ast.ValueSpec)
+				for i, nm := range vs.Names {
+					if pk.TypesInfo.Defs[nm] == v && len(vs.Values) == len(vs.Names) {
+						lit, _ = unparen(vs.Values[i]).(*ast.CompositeLit)
+					}
+				}
+			}
+		}
+	}
+	if lit == nil {
+		return nil
+	}
+	for _, f := range pk.Syntax {
+		if !st.structUsesReadOnly(pk, f, v) {
+			return nil
+		}
+	}
+	st.pkgLits[v] = lit
+	return lit
+}
+
+// structUsesReadOnly: no use of the struct variable obj below root can change it: its fields are only read (never
+// assigned, incremented or address-taken), it is never assigned as a whole, its address is never taken and only
+// methods that do not write their receiver are called on it. (Copies of the value — argument, right-hand side —
+// are harmless: the fields resolved from the literal are of basic type.)
+func (st *c12State) structUsesReadOnly(pk *packages.Package, root ast.Node, obj types.Object) bool {
+	info := pk.TypesInfo
+	parents := st.c.P.Parents(pk)
 	okUses := true
-	ast.Inspect(caller.Decl.Body, func(n ast.Node) bool {
+	ast.Inspect(root, func(n ast.Node) bool {
 		use, isId := n.(*ast.Ident)
 		if !isId || info.Uses[use] != obj {
 			return okUses
@@ -228,16 +315,19 @@ func (st *c12State) structLit(caller *FuncInfo, a ast.Expr) *ast.CompositeLit {
 		case *ast.AssignStmt:
 			for _, l := range pt.Lhs {
 				if l == child {
-					okUses = false // counted by c12LocalInit already; kept for clarity
+					okUses = false // the defining assignment of a local is a Def, not a Use, and is not seen here
 				}
+			}
+		case *ast.IncDecStmt:
+			okUses = false
+		case *ast.RangeStmt:
+			if pt.Key == child || pt.Value == child {
+				okUses = false
 			}
 		}
 		return okUses
 	})
-	if !okUses {
-		return nil
-	}
-	return cl
+	return okUses
 }
 
 // c12LitField: the value expression of a field in a struct literal (nil, true = the field is left at its zero value).
@@ -693,6 +783,9 @@ func (st *c12State) instantiate(e *Emission, sitesOf func(*FuncInfo) ([]*c12Site
 func c12OwnGuards(e *Emission) []Guard {
 	if s := c12SiteOf[e]; s != nil {
 		return s.guards
+	}
+	if g, ok := c12GuardOverride[e]; ok {
+		return g
 	}
 	return e.G.Guards(e.Loc)
 }
